@@ -53,20 +53,36 @@ def _setattr_keep_slot(obj, name, val):
     # position, so whoever substituted first (xitorch or torch) finds its tensors
     # in the same place when it restores, also when the caller has turned a
     # parameter into a constant since the substituted tensors were recorded.
-    if isinstance(obj, torch.nn.Module) and isinstance(val, torch.Tensor):
-        for place in (obj._parameters, obj._buffers, obj.__dict__):
+    is_module_tensor = isinstance(obj, torch.nn.Module) and isinstance(val, torch.Tensor)
+    if is_module_tensor:
+        for place in (obj._parameters, obj._buffers):
             if name in place:
                 if place is obj._parameters:
                     obj.__dict__.pop(name, None)
                 place[name] = val
                 return
-    if getattr(type(obj), name, None) is val:
-        # the class itself provides this tensor under the name: the instance needs
-        # no entry of its own (putting back a tensor inherited from the class must
-        # not turn it into an attribute of the instance)
+    if _resolves_without_entry(obj, name, val):
+        # the name gives this very tensor without an entry of the instance (it is
+        # inherited from the class, or answered by __getattr__): putting the
+        # tensor back must not turn it into an attribute of the instance
         getattr(obj, "__dict__", {}).pop(name, None)
         return
+    if is_module_tensor and name in obj.__dict__:
+        obj.__dict__[name] = val
+        return
     setattr(obj, name, val)
+
+def _resolves_without_entry(obj, name, val):
+    cls = type(obj)
+    if hasattr(cls, name):
+        return getattr(cls, name) is val
+    fallback = getattr(cls, "__getattr__", None)
+    if fallback is None:
+        return False
+    try:
+        return fallback(obj, name) is val
+    except AttributeError:
+        return False
 
 def _delattr_keep_slot(obj, name):
     # deleting a registered parameter keeps its slot, see _setattr_keep_slot
